@@ -121,10 +121,15 @@ def run(tier, seed, t0):
     jobs = [lambda: ob_sampler("gm-sm2", "random_u256", N2), lambda: ob_sampler("gm-sm9", "sm9_random_u256", N9, ["SM9_N_MINUS_ONE"]),
             ob_keygen_sm2, lambda: ob_keygen_sm9("generate_sign_master_key", True), lambda: ob_keygen_sm9("generate_enc_master_key", False),
             lambda: ob_keygen_sm9("Sm9EncMasterKey::master_key_generate", False), lambda: ob_keygen_sm9("Sm9SignMasterKey::master_key_generate", True)]
-    res = run_parallel(jobs, nproc=8)
+    # freshness at every call site: the scalar used is the LAST one drawn in that very invocation, whatever the object
+    # remembers from earlier invocations (the obligations of the protocol properties, run here as well)
+    import c03, c05, c09, c10, c15, c17
+    jobs += [c03.ob_sign_raw, lambda: c05.ob_encrypt(5, False, True), c15.ob_exchange_1_4, lambda: c15.side_b(16), lambda: c15.side_b(16, used=True),
+             lambda: c09.ob_sign(3), lambda: c10.ob_encrypt(5, 3, only_scalar=True), c17.ob_1a, lambda: c17.ob_1b(16)]
+    res = run_parallel(jobs, nproc=14)
     return finish("C14", tier, seed, "other", res, t0,
                   assumptions=["the operating-system-seeded CSPRNG (rand::thread_rng) delivers fresh, unbiased bytes: trusted, not decidable by this technique",
-                               "freshness at the remaining call sites is part of C03 (sign), C05 (encrypt), C15 (exchange), C09/C10/C17 (SM9), each of which proves that the scalar used is the last one drawn in that invocation"],
+                               "freshness at the call sites = the scalar used is the last one drawn from the CSPRNG inside that invocation, for an object with arbitrary remembered state (obligations shared with C03, C05, C15, C09, C10, C17)"],
                   explanation="Sampler predicate decided from the MIR with the CSPRNG as the environment: the map from accepted CSPRNG outputs to scalars is the identity and the accept set lies in [1, order-1], "
                               "so the library adds no bias and never uses an out-of-range candidate; key generators use the scalar they drew. The statistical half of the property (no repeats, per-bit frequencies of the OS CSPRNG) is NOT decided.",
-                  rule="2 samplers + 5 key generators", extra_cov={"explanation": "sampler predicate + data-flow decided by solver queries over the MIR; CSPRNG statistics trusted (see assumptions)"})
+                  rule="2 samplers + 5 key generators + 9 call-site freshness obligations", extra_cov={"explanation": "sampler predicate + data-flow decided by solver queries over the MIR; CSPRNG statistics trusted (see assumptions)"})
